@@ -13,7 +13,7 @@ theorem negI_wrap_neg {t : Int} (ht : fits128 t) : negI (wrap128 (-t)) = t := by
   unfold negI wrap128 minRaw; unfold fits128 at ht; split <;> omega
 
 /-- `Int128.Div` is the truncated quotient whenever that quotient is representable (i.e. except `Min / -1`) -/
-theorem quo_eq {i n : Int} (hi : fits128 i) (hn : fits128 n) (hn0 : n ≠ 0) (hq : fits128 (i.tdiv n)) :
+theorem quo_eq {i n : Int} (hi : fits128 i) (hn : fits128 n) (hq : fits128 (i.tdiv n)) :
     quo i n = i.tdiv n := by
   unfold quo
   by_cases h1 : i < 0
@@ -40,7 +40,7 @@ theorem quo_eq {i n : Int} (hi : fits128 i) (hn : fits128 n) (hn0 : n ≠ 0) (hq
 theorem Mult.fits128 {m : Int} (h : Mult m) : Fixed.fits128 m := fits128_of_fits64 h.fits64
 
 theorem quo_mult {m x : Int} (hm : Mult m) (hx : fits128 x) : quo x m = x.tdiv m :=
-  quo_eq hx (Mult.fits128 hm) (by have := hm.pos; omega) (fits128_tdiv hx hm.pos)
+  quo_eq hx (Mult.fits128 hm) (fits128_tdiv hx hm.pos)
 
 theorem add_exact {a b : Int} (h : fits128 (a + b)) : add a b = a + b := wrap128_of_fits h
 theorem sub_exact {a b : Int} (h : fits128 (a - b)) : sub a b = a - b := wrap128_of_fits h
@@ -52,7 +52,7 @@ theorem mul_eq {m a b : Int} (hm : Mult m) (hp : fits128 (a * b)) : mul m a b = 
 theorem div_eq {m a b : Int} (hbf : fits128 b) (hb : b ≠ 0) (hp : fits128 (a * m)) (hq : fits128 ((a * m).tdiv b)) :
     div m a b = some (fxDiv m a b) := by
   unfold div mulI fxDiv
-  rw [if_neg hb, wrap128_of_fits hp, quo_eq hp hbf hb hq]
+  rw [if_neg hb, wrap128_of_fits hp, quo_eq hp hbf hq]
 
 theorem trunc_eq {m a : Int} (hm : Mult m) (ha : fits128 a) : trunc m a = fxTrunc m a := by
   unfold trunc mulI fxTrunc
@@ -120,7 +120,7 @@ theorem round_eq {m a : Int} (hm : Mult m) (ha : fits128 a) (hr : fits128 (fxRou
     unfold fits128; omega
   have hb := (tdiv_between m 2 (by omega)).1 (by omega)
   have h2 : quo m 2 = m.tdiv 2 :=
-    quo_eq (Mult.fits128 hm) (by unfold fits128; omega) (by omega) (fits128_tdiv (Mult.fits128 hm) (by omega))
+    quo_eq (Mult.fits128 hm) (by unfold fits128; omega) (fits128_tdiv (Mult.fits128 hm) (by omega))
   have h3 : neg (m.tdiv 2) = -(m.tdiv 2) := by
     apply neg_eq <;> (unfold fits128; omega)
   unfold round
@@ -150,5 +150,28 @@ theorem asInt64_of_fits {x : Int} (h : fits64 x) : asInt64 x = x := by
   unfold asInt64 wrap64; unfold fits64 at h
   simp only
   split <;> omega
+
+theorem fromInt_eq {k : Kind} (hk : k ∈ kinds) {m v : Int} (hm : Mult m) (hv : fitsKind k v) :
+    fromInt k m v = v * m := by
+  have h0 := hm.pos
+  have h1 := hm.le
+  have hp : ∀ x : Int, -18446744073709551616 ≤ x → x ≤ 18446744073709551616 → fits128 (x * m) := by
+    intro x hx1 hx2
+    have : x * m ≤ 18446744073709551616 * m := by nlinarith
+    have : -18446744073709551616 * m ≤ x * m := by nlinarith
+    unfold fits128; omega
+  unfold fromInt mulI
+  simp only [kinds, List.mem_cons, List.not_mem_nil, or_false] at hk
+  rcases hk with rfl | rfl | rfl | rfl | rfl | rfl | rfl | rfl <;>
+    simp [fitsKind] at hv <;> simp only [if_true, Bool.false_eq_true, if_false]
+  all_goals first
+    | (rw [wrap64_of_fits (by unfold fits64; omega), wrap128_of_fits (hp v (by omega) (by omega))])
+    | (rw [Int.emod_eq_of_lt (by omega) (by omega), wrap128_of_fits (hp v (by omega) (by omega))])
+
+theorem toKind_of_fits {k : Kind} (hk : k ∈ kinds) {x : Int} (h : fitsKind k x) : toKind k x = x := by
+  unfold toKind
+  simp only [kinds, List.mem_cons, List.not_mem_nil, or_false] at hk
+  rcases hk with rfl | rfl | rfl | rfl | rfl | rfl | rfl | rfl <;>
+    simp [fitsKind] at h <;> simp <;> omega
 
 end Fixed.F128
